@@ -1381,13 +1381,8 @@ func ruleEmptyContainerWritten(c *Ctx, rule string) {
 		if fn.Parent() != nil || fn.Signature.Recv() == nil || namedOf(fn.Signature.Recv().Type()) != tb {
 			continue
 		}
-		writesEntries := false
-		for _, call := range callsIn(fn) {
-			if cal, _ := calleeOf(call.Common()); cal != nil && cal.Name() == "setMarshaled" {
-				writesEntries = true
-			}
-		}
-		if !writesEntries || !(strings.HasPrefix(fn.Name(), "Put")) {
+		// the two exported container writers
+		if fn.Name() != "PutMap" && fn.Name() != "PutList" {
 			continue
 		}
 		n++
@@ -1507,6 +1502,30 @@ func ruleFilterOnItsStore(c *Ctx, rule string) {
 				}
 			}
 			if mk == nil {
+				// the filter handed in (the handlers of a dispatch on the cascade type): in a delete constraint the
+				// filter is the referrer filter, and the store to ask is the one the constraint's symbol belongs to
+				isPrm := false
+				for _, a := range cc.Args {
+					if _, ok := strip(a).(*ssa.Parameter); ok {
+						if _, isIface := a.Type().Underlying().(*types.Interface); isIface {
+							isPrm = true
+						}
+					}
+				}
+				root := fn
+				for root.Parent() != nil {
+					root = root.Parent()
+				}
+				if !isPrm || root.Signature.Recv() == nil {
+					continue
+				}
+				if rn := namedOf(root.Signature.Recv().Type()); rn == nil || !strings.HasPrefix(rn.Obj().Name(), "fkDelete") {
+					continue
+				}
+				asked, isCall := strip(cc.Value).(*ssa.Call)
+				n++
+				c.Analysed(FnName(fn))
+				c.Check(isCall && asked.Call.IsInvoke() && asked.Call.Method.Name() == "GetStore", rule, FnName(fn)+": "+describeInstr(call), p.Pos(call.Pos()), "the referrer filter handed in is evaluated on the store the constraint's symbol belongs to", "the referrer filter is evaluated on "+describeValue(cc.Value)+" instead of the store the constraint's symbol belongs to: there the field it names does not resolve, nothing matches, and a delete that must be refused (or cascaded) because referrers exist goes through")
 				continue
 			}
 			n++
